@@ -53,8 +53,16 @@ def seed_randomness(seed):
     random.seed(core.h64(seed, "lib-random"))
 
 
+def gc_point():
+    """the cyclic garbage collector is a scheduler of its own (finalizers run whenever it decides to): it is switched off in
+    workers and runs only here -- at the start and end of every run and at the points a plan names -- so that one plan is one
+    execution also for code with __del__ methods"""
+    gc.collect()
+
+
 def setup_plain():
     """for C19/C20: repo on sys.path, no simulated loop, real files in a scratch dir"""
+    gc.disable()
     warnings.simplefilter("ignore")
     if REPO not in sys.path:
         sys.path.insert(0, REPO)
@@ -66,6 +74,7 @@ def setup_frontend():
     """HOME -> scratch (before any repo import), logging off, FS seam installed"""
     if _state["frontend"]:
         return _state["seam"]
+    gc.disable()
     warnings.simplefilter("ignore")
     home = scratch_root()
     os.environ["HOME"] = home
